@@ -303,7 +303,7 @@ PROPS["C02"] = {
                    "old leader crashed or deposed alive), servers that lag in applying metadata (a leader that has not learned it was replaced keeps accepting publishes and serving replication), eight directed templates (double failovers, an empty term, a replica away across a failover that is elected later, a deposed-but-alive leader answering requests meant for its successor, a leader two leader changes behind, a follower that keeps fetching with an old leader epoch); replication, truncation, leader-offset requests, epoch caches and commit are the real code, the harness plays the Raft log through the real Server.apply. "
                    "After every step: each replica's log is contiguous with non-decreasing epochs, HW never moves back within an incarnation, any two replicas agree on every offset at or below both HWs, "
                    "every ALL-acknowledged message is served unchanged at its offset by every later leader, no offset is acknowledged for two messages. Unit C02c: a started 3-server cluster in which elections, ISR shrinks and expansions are decided by the real code (follower reports, controller quorum, replicator lag detection); the harness publishes (LEADER/ALL), stops the partition leader or a follower (up to three times per history), waits and starts it again; same invariants after every step and at quiescence (all replicas identical up to HW = end)"),
-    "level_note": "metadata operations are delivered by the harness, not by hashicorp/raft (elections always pick from the recorded ISR, as the controller does); one known finding (HW-truncation fallback, issue #38) is excluded by construction and counted: a follower never restarts while no leader is reachable, and followers never apply a leader change before the new leader does; in C02c, where the real Raft decides the order, a case is excluded (and counted) as soon as a server logs the HW-truncation fallback",
+    "level_note": "metadata operations are delivered by the harness, not by hashicorp/raft (elections always pick from the recorded ISR, as the controller does); one known finding (HW-truncation fallback, issue #38) is excluded by construction and counted: a follower never restarts while no leader is reachable, and followers never apply a leader change before the new leader does; in C02c, where the real Raft decides the order, a case is excluded (and counted) as soon as a server logs the HW-truncation fallback; unit C02e works at the commit-log level: the leader-epoch history reconciliation is computed from (the follower names its last epoch, the leader answers with where that epoch ends) must map every retained message to the epoch it was written in after every append with a leader change, retention or compaction clean and reopen (C09 operation alphabet with epoch bumps in a third of the appends)",
     "rule": "rapid draws 4-30 steps or one of eight directed templates. Non-trivial = at least one leader change after a committed publish; labels count two leader changes, stale HW checkpoints, rejoin with an uncommitted tail, leaders deposed alive, expands while behind. C02c: 5-30 operations, 12 histories in quick; non-trivial = at least one server was stopped after an ALL-acknowledged publish and the case was not excluded.",
     "assumptions": TRUST,
     "units": [
@@ -311,6 +311,9 @@ PROPS["C02"] = {
          "quick": {"shards": 8, "checks": 25}, "thorough": {"shards": 16, "checks": 400, "timeout": 3000}},
         {"name": "C02c", "pkg": "server", "test": "TestVerifC02c",
          "quick": {"shards": 6, "checks": 2, "timeout": 700}, "thorough": {"shards": 8, "checks": 20, "timeout": 3300}},
+        # commit-log level: the leader-epoch history that reconciliation is computed from, under retention, compaction and reopen
+        {"name": "C02e", "pkg": "server/commitlog", "test": "TestVerifC02e",
+         "quick": {"shards": 8, "checks": 1000}, "thorough": {"shards": 16, "checks": 20000, "timeout": 3000}},
     ],
 }
 
